@@ -443,6 +443,20 @@ package leveldb
 //@   at before call (*session).recordCommited#1
 //@     assert [C04:record-durable-before-committed] err == nil && calls("(*Writer).Flush") > old(calls("(*Writer).Flush")) && ((s.o.Options != nil && s.o.Options.NoSync) || calls("storage.Syncer.Sync") > old(calls("storage.Syncer.Sync")))
 
+// C08 / C11: callers take an error of a commit to mean "not committed" - a transaction that could not be committed
+// is discarded and its tables are removed, so is a large batch. That is only safe if a commit that reports an error has
+// left no record in the manifest. It is not so when the record was flushed to the file and the sync after it failed
+// (known finding F14: the manifest then names tables that Discard removes, and the DB cannot be opened again).
+//@ ghost var gManifestFlushed bool
+//@ func (*session).flushManifest
+//@   props C08 C11
+//@   mode bv
+//@   at entry
+//@     ghost gManifestFlushed = false
+//@   at call (*Writer).Flush#1
+//@     ghost gManifestFlushed = result == nil
+//@   ensures [C08,C11:a-commit-that-reports-an-error-left-no-record-in-the-manifest] err != nil ==> !gManifestFlushed
+
 // O5: a version is installed only by a commit that succeeded.
 //@ ghost var gSnapV ref
 //@ ghost var gSnapped bool
@@ -471,10 +485,20 @@ package leveldb
 //@     assert [C01,C04:commit-before-journal-removal] calls("(*DB).compactionCommit") > old(calls("(*DB).compactionCommit"))
 
 // O7: a write group is flushed (and synced when asked) to the journal before it is applied and acknowledged.
+// ... and a journal flush or sync that failed is reported: the write group is then neither applied nor acknowledged
+// (C08: a write that was acknowledged is in the journal).
+//@ ghost var gJournalFailed bool
 //@ func (*DB).writeJournal
-//@   props C04
+//@   props C04 C08 C01
+//@   at entry
+//@     ghost gJournalFailed = false
+//@   at call (*Writer).Flush#1
+//@     ghost gJournalFailed = gJournalFailed || result != nil
+//@   at call storage.Syncer.Sync#1
+//@     ghost gJournalFailed = gJournalFailed || result != nil
 //@   ensures [C04:flushed] result == nil ==> calls("(*Writer).Flush") > old(calls("(*Writer).Flush"))
 //@   ensures [C04:synced-when-asked] (result == nil && sync) ==> calls("storage.Syncer.Sync") > old(calls("storage.Syncer.Sync"))
+//@   ensures [C01,C04,C08:a-failed-journal-flush-or-sync-is-reported] gJournalFailed ==> result != nil
 
 //@ func (*DB).writeLocked
 //@   props C04
@@ -581,6 +605,15 @@ package leveldb
 //@   ensures [C11:isolated-from-db] tr.db == old(tr.db) && tr.db.seq == old(tr.db.seq) && tr.db.mem == old(tr.db.mem) && tr.db.frozenMem == old(tr.db.frozenMem) && tr.db.s.stVersion == old(tr.db.s.stVersion) && tr.db.s.stSeqNum == old(tr.db.s.stSeqNum)
 //@   ensures [C11:one-seq-per-record] result == nil ==> tr.seq == old(tr.seq) + 1
 //@   ensures [C11:failed-put-takes-no-seq] result != nil ==> tr.seq == old(tr.seq)
+
+// A transaction's records are numbered after everything that existed when it started: each takes the next unused
+// sequence number (tr.seq is the last one used), so a snapshot or iterator taken before the transaction - which
+// reads at the DB's sequence number of that moment - never sees them (C03), and of two records of one key the later
+// one wins (C01).
+//@ func (*Transaction).put
+//@   props C03 C11 C01
+//@   at before call makeInternalKey#1
+//@     assert [C01,C03,C11:a-record-takes-the-next-unused-sequence-number] arg2 == tr.seq + 1 && arg3 == kt && sameslice(arg1, key)
 
 //@ func (*DB).OpenTransaction
 //@   props C11
@@ -874,11 +907,16 @@ package leveldb
 //@   props C07
 //@   safety off
 //@   nocall [C07:file-number-is-not-given-back-while-the-table-may-still-be-open] (*session).reuseFileNum
+// C01 / C11: blocks are cached under the file number of their table. A number that is handed out again (the table of
+// a discarded transaction, of a failed compaction) must not bring the blocks of the table that had it before: they
+// are evicted before the number is given back, whatever the eviction option says (F12).
+
 //@ func (*tOps).remove$1
-//@   props C07
+//@   props C07 C01 C11
 //@   safety off
 //@   at before call (*session).reuseFileNum#*
 //@     assert [C07:file-number-is-given-back-only-after-the-file-was-removed] calls("storage.Storage.Remove") == old(calls("storage.Storage.Remove")) + 1
+//@     assert [C01,C11:blocks-cached-under-a-file-number-are-evicted-before-the-number-is-reused] t.blockCache == nil || calls("(*Cache).EvictNS") >= old(calls("(*Cache).EvictNS")) + 1
 
 // C07 (space is reclaimed): a version stays referenced - and every table it lists stays in storage - until its
 // reference is given back. Choosing the inputs of a compaction takes a reference on the current version; it is
@@ -1445,7 +1483,7 @@ package leveldb
 // C07: the janitor that runs at open removes a manifest or journal only if it is older than the live one (the
 // frozen journal counts as live while it exists). Table files are removed only if the live version does not list
 // them: that part goes through a Go map, which the verifier does not model - not proved.
-//@ spec func stale(db ref, fd ref) bool = (fd.Type == storage.TypeManifest && fd.Num < db.s.manifestFd.Num) || (fd.Type == storage.TypeJournal && ((db.frozenJournalFd.Type != 0 || db.frozenJournalFd.Num != 0) ? fd.Num < db.frozenJournalFd.Num : fd.Num < db.journalFd.Num)) || fd.Type == storage.TypeTable
+//@ spec func stale(db ref, fd ref) bool = (fd.Type == storage.TypeManifest && fd.Num < db.s.manifestFd.Num) || (fd.Type == storage.TypeJournal && ((db.frozenJournalFd.Type != 0 || db.frozenJournalFd.Num != 0) ? fd.Num < db.frozenJournalFd.Num : fd.Num < db.journalFd.Num)) || fd.Type == storage.TypeTable || fd.Type == storage.TypeTemp
 //@ func (*DB).checkAndCleanFiles
 //@   props C07
 //@   safety off
@@ -1455,6 +1493,12 @@ package leveldb
 //@     invariant [C07:only-stale-files-are-listed] forall k int :: 0 <= k && k < len(rem) ==> stale(db, rem[k])
 //@   at before call storage.Storage.Remove#1
 //@     assert [C07:only-stale-files-are-removed] stale(db, fd)
+// ... and the converse for the files whose fate does not go through the Go map: a manifest or journal older than the
+// live one, and a temporary file (left by an interrupted table rebuild of Recover; no running DB owns one), is never
+// kept (F13: temporary files used to be kept for ever).
+//@   at before stmt if !keep
+//@     assert [C07:a-temporary-file-is-never-kept] fd.Type == storage.TypeTemp ==> !keep
+//@     assert [C07:an-old-manifest-or-journal-is-never-kept] (fd.Type != storage.TypeTable && fd.Type != storage.TypeTemp && stale(db, fd)) ==> !keep
 
 // ---------------------------------------------------------------------------
 // C01: the lookup rule of version.get, stated on its two callbacks (function literals verified as units; the
